@@ -118,6 +118,7 @@ func runCesiumInject(c tcase, target int, serialSkip [][]bool, serial bool) (obs
 		obs.Setup = append(obs.Setup, classify(doOp(ctx, db, c, o)))
 	}
 	obs.Outcomes = make([][]string, len(c.Threads))
+	pre := preopen(ctx, db, c, serialSkip)
 	var pmu sync.Mutex
 	runThread := func(ti int) {
 		defer func() {
@@ -133,7 +134,7 @@ func runCesiumInject(c tcase, target int, serialSkip [][]bool, serial bool) (obs
 				outs = append(outs, "skipped")
 				continue
 			}
-			e := doOp(ctx, db, c, o)
+			e := doOpW(ctx, db, c, o, pre[[2]int{ti, oi}])
 			if e != nil {
 				pmu.Lock()
 				obs.Msgs = append(obs.Msgs, fmt.Sprintf("t%d.%d %s: %v", ti, oi, o.Op, e))
